@@ -1240,7 +1240,50 @@ def m_option_map_reverse(ex, st, a, dst, callee):
     return None
 
 
+def m_int_arith(ex, st, a, dst, callee):
+    m = re.search(r"num::<impl (\w+)>::(overflowing|wrapping|checked|saturating)_(add|sub|mul|neg)$", callee)
+    if not m or m.group(1) not in INT_W:
+        return None
+    t, mode, op = m.group(1), m.group(2), m.group(3)
+    x = _dv(ex, st, a[0])
+    y = _dv(ex, st, a[1]) if len(a) > 1 else None
+    if not isinstance(x, z3.BitVecRef):
+        return None
+    w = x.size()
+    signed = t in SIGNED
+    ext = (lambda v: z3.SignExt(w, v)) if signed else (lambda v: z3.ZeroExt(w, v))
+    if op == "neg":
+        wide = -ext(x)
+    else:
+        wide = {"add": ext(x) + ext(y), "sub": ext(x) - ext(y), "mul": ext(x) * ext(y)}[op]
+    res = z3.Extract(w - 1, 0, wide)
+    ovf = ext(res) != wide
+    if mode == "wrapping":
+        return [(res, [], None)]
+    if mode == "overflowing":
+        return [(Tup([res, b2bv(ovf)]), [], None)]
+    if mode == "checked":
+        return [(Enum("Some", [res]), [z3.Not(ovf)], None), (Enum("None"), [ovf], None)]
+    lo, hi = ((-(1 << (w - 1))), (1 << (w - 1)) - 1) if signed else (0, (1 << w) - 1)
+    neg = (wide < 0) if signed else z3.BoolVal(False)
+    return [(z3.If(ovf, z3.If(neg, bv(lo, w), bv(hi, w)), res), [], None)]
+
+
+def m_prim_default(ex, st, a, dst, callee):
+    m = re.search(r"<(\w+) as Default>::default$", callee)
+    if not m:
+        return None
+    t = m.group(1)
+    if t in INT_W:
+        return [(bv(0, INT_W[t]), [], None)]
+    if t == "f64":
+        return [(z3.FPVal(0.0, z3.Float64()), [], None)]
+    return None
+
+
 STD_CMP_MODELS = [
+    (r"<\w+ as Default>::default$", m_prim_default),
+    (r"num::<impl \w+>::(overflowing|wrapping|checked|saturating)_(add|sub|mul|neg)$", m_int_arith),
     (r"<\w+ as Ord>::cmp$", m_ord_cmp),
     (r"<f64 as PartialOrd>::partial_cmp$", m_f64_partial_cmp),
     (r"f64>::is_nan$|f64::is_nan$", m_f64_pred(z3.fpIsNaN)),
